@@ -13,4 +13,21 @@ def instances(build, tier, seed):
     for mode, nm in ((1, 'utf8dec'), (2, 'utf8enc'), (3, 'utf16enc')):
         L.append(Inst('utf.%s' % nm, 'h_utf.c', {'MODE': mode}, units=['utf'], unwind=6, family='utf',
                       bound={'input': 'full value space'}))
+    natives = ['map', 'util', 'token', 'decl', 'eval', 'init', 'scope', 'attr', 'stmt', 'scan', 'pp', 'qbe', 'tree']
+    nb = 5 if tier == 'quick' else 7
+    for prefix, pn in enumerate(('plain', 'L', 'u', 'U', 'u8')):
+        for target, tnm in enumerate(('x86_64', 'aarch64', 'riscv64')):
+            if tier == 'quick' and target == 2 and prefix not in (0,):
+                continue      # riscv64 differs from x86_64 only in char signedness
+            L.append(Inst('charconst.%s.%s' % (pn, tnm), 'h_charconst.c', {'PREFIX': prefix, 'TARGET': target, 'NB': nb}, units=['utf', 'type', 'targ'],
+                          native_units=natives, unwind=nb + 4, unwindset=['strcmp.0:14'], family='charconst', timeout=300 if tier == 'quick' else 1800,
+                          bound={'body_bytes': nb, 'prefix': pn, 'target': tnm}))
+        if prefix in (0, 2, 4):
+            L.append(Inst('charconst.%s.range' % pn, 'h_charconst.c', {'PREFIX': prefix, 'TARGET': 0, 'NB': nb, 'RANGE_PROBE': None}, units=['utf', 'type', 'targ'],
+                          native_units=natives, unwind=nb + 4, unwindset=['strcmp.0:14'], family='charconst-range', timeout=300, witness=False,
+                          bound={'body_bytes': nb, 'prefix': pn, 'inputs': 'only out-of-range values (known finding probe)'}))
+    META['functions'] += ['expr.c:primaryexpr(TCHARCONST)', 'expr.c:decodechar', 'expr.c:isodigit', 'expr.c:mkconstexpr', 'targ.c:targinit']
+    META['bounds']['charconst'] = 'all bodies of %d bytes the scanner accepts, 5 prefixes x 3 targets' % nb
+    META['stubs'] += ['next() records', 'error() ends the path after asserting the reference also rejects']
+    META['outside'] += ['non-ASCII source characters in plain and u8 character constants (implementation-defined value)']
     return L
